@@ -28,4 +28,6 @@ for p in "$@"; do
   out=$(cd /verif && VERIF_SEED=${VERIF_SEED:-1} ./check $p quick --ion-src "$D" 2>&1 | grep -E "^(VIOLATION|OK|INCONCLUSIVE|  detail)" | head -4)
   echo "[$p] $out"
 done
-rm -rf "$D" /verif/.bin/alt-*.mod /verif/.bin/alt-*.sum /verif/.bin/*-????????.test /verif/.bin/ion-go-???????? /verif/.bin/c06worker-????????
+# remove only what this run built (several runs may be in flight)
+TAG=$(printf %s "$D" | sha1sum | cut -c1-8)
+rm -rf "$D" /verif/.bin/alt-$TAG.mod /verif/.bin/alt-$TAG.sum /verif/.bin/*-$TAG.test /verif/.bin/ion-go-$TAG /verif/.bin/c06worker-$TAG
